@@ -34,7 +34,8 @@ check("C14", "DESIGN.md 5/C14",
       "what the public configuration at the time of the call prescribes (so a disabled operator is rejected on every history, also after "
       "reconfiguration and cloning); two seeded design errors of the model are required to violate the laws (non-vacuity); multistage "
       "stages are modelled (Wilkinson.tla evaluates on Structured trees). Random behaviours of ParserSession (tlc -simulate, histories of 10 calls) "
-      "are replayed like the enumerated ones.",
+      "are replayed like the enumerated ones. A list of 88 hand-written probes (deep nesting, huge exponents, unreadable fragments, lone surrogates, "
+      "quote characters inside quoted names) is parsed under every configuration and judged by the same outcome law.",
       "Trusted: ast.parse as oracle of fragment validity, lexical classes from the documented regexes. Bounded: strings <= 3-4 chars "
       "(quick) / <= 4-6 (thorough) exhaustively, fuzzed strings up to 120 chars, parser histories of <= 3 / 4 calls on two objects. "
       "Known finding D33 (nested multistage left-hand side escapes with NotImplementedError, demanded by the repository's own test) is reported as KNOWN-FINDING.")
@@ -45,7 +46,10 @@ check("C15", "DESIGN.md 5/C15",
       "TLC proves on every string in the bound that spans are ordered, well-formed and faithful, that a space at any operator/grouping "
       "boundary changes no token, that balanced python fragments and backtick contents are verbatim (with the exact exception law); the "
       "real tokenizer is compared token for token (text, kind, start, end) on every enumerated string and validated by TLC on random "
-      "formulas with unicode names.",
+      "formulas with unicode names. PyNorm.tla models the normalisation of python fragments (scan for string literals and quoted names, "
+      "alias, format, restore) against the documented normal form; TLC proves the repaired algorithm faithful on every call expression of the "
+      "family and refutes the two algorithms of the pinned commit (non-vacuity); every expression is replayed in four spacings and with its quoted "
+      "names respelt with characters Python's identifier rules treat specially. Token strings over quoted names that print like literals are parsed and compared with Wilkinson.tla.",
       "Trusted: character classes computed with the regexes tokenize() documents; ast.dump as oracle of 'same python up to formatting'. "
       "Known finding D15 (names ending in an odd run of backslashes) is reported as KNOWN-FINDING.")
 
@@ -113,11 +117,11 @@ check("C06", "DESIGN.md 5/C06",
       "in TLC over every null pattern; exhaustive replay through all entry points, index kinds and outputs",
       "TLC proves for every null pattern x formula x policy x caller set in the bound that the drop set only grows and ends as exactly "
       "the caller's rows plus the null rows, that kept rows are the complement in order, and that raise fails iff an evaluated factor has a "
-      "null; every case is executed through sugar / Formula / ModelSpec(s) with and without call-time overrides / materializer, on default, "
+      "null; every case is executed through sugar / Formula / ModelSpec(s) with and without call-time overrides / materializer object / the narwhals materializer as an option override, on default, "
       "string, unsorted and non-unique indexes, for pandas / numpy / sparse, comparing cells, index label sequence, the caller's set and "
       "the exception.",
       "Trusted: gamma/alpha of the materializer family. hashed() is treated as an opaque factor without nulls (rows, index and drop set are "
-      "compared, not its cells).")
+      "compared, not its cells). One formula draws a categorical factor from an array of strings held by the caller's context.")
 
 check("C07", "DESIGN.md 5/C07",
       "TLA+ model of pooled evaluation over the parts of a structured formula (MC_Missing: one drop set for all parts, "
@@ -182,7 +186,9 @@ check("C11", "DESIGN.md 5/C11",
       "difference (both directions) for every n up to the bound, sizes and zero column sums, and exact orthogonality of the polynomial "
       "contrasts' monic polynomials; the real classes are compared (dense, sparse, via ContrastsState) under three labelings, and every "
       "data vector of length <= 3 over levels + {null, unseen} is encoded through encode_contrasts (3 outputs, reduced and full) and "
-      "through model_matrix('C(x, contr...)'). User-supplied coding matrices (array, list with names, dict) are encoded likewise.",
+      "through model_matrix('C(x, contr...)') on pandas frames and Arrow tables; Contrasts.apply is called on the indicator matrix itself as "
+      "numpy array, pandas frame and sparse matrix (encoding = indicator . coding); the sparse forms must be sparse matrices of the right shape. "
+      "User-supplied coding matrices (array, list with names, dict) are encoded likewise.",
       "Trusted: sqrt for the polynomial normalisation and a 1e-10 float comparison in the harness. Polynomial contrasts exact to n = 5 "
       "(32-bit rationals).")
 
@@ -206,8 +212,9 @@ check("C17", "DESIGN.md 5/C17",
       "'.' law for every column order; every case is executed: Formula.required_variables, success / FactorEvaluationError, cells (the "
       "layers hold different numbers so the source is observable), variables_by_source, ModelSpec.required_variables, the restricted "
       "build and the build with each required column removed.",
-      "Known finding D19 (a data column named like a transform is omitted by the pre-materialization estimate) is reported as "
-      "KNOWN-FINDING. Trusted: the concrete values placed in each layer.")
+      "The name that needs quoting is replayed under six spellings (blank, keyword, leading digit, python constant, dotted, dotted with a "
+      "transform name in front). Known findings D19 (a data column named like a transform is omitted by the pre-materialization estimate) and "
+      "D37 (attribute access reported as a dotted path) are reported as KNOWN-FINDING. Trusted: the concrete values placed in each layer.")
 
 check("C18", "DESIGN.md 5/C18",
       "TLA+ module Session.tla (operations as functions of their arguments; Det and Frame as action properties) model-checked in TLC over "
